@@ -19,6 +19,8 @@ pub fn fast_load_tap<H: Host>(emulator: &mut Emulator<H>) -> Result<()> {
     let (mut parity_acc, mut current_byte) = (0, 0);
     // move to next block
     if !emulator.controller.tape.next_block()? {
+        // Nothing to load: leave the CPU as it was, ROM loader continues with a silent tape
+        emulator.cpu.regs.swap_af_alt();
         return Ok(());
     }
 
